@@ -47,7 +47,7 @@ def ep_record(ep):
     return dict(kind="?" + type(ep).__name__, host="", port=0, path="")
 
 
-def choose(existing, requested, path):
+def choose(existing, requested, path, twice=False):
     """existing: list of SOCKSPort lines Tor reports ([] with default='9050' means 'unset, default in force')"""
     lines = list(existing["lines"])
     proto = TorControlProtocol()
@@ -99,11 +99,22 @@ def choose(existing, requested, path):
                 d = _create_socks_endpoint(reactor, proto, socks_config=requested)
             else:
                 d = tor._default_socks_endpoint()
+        elif path == "cfgsync":
+            # the synchronous form: an already configured port only
+            cd = TorConfig.from_protocol(proto)
+            sim.pump()
+            config = cd.result
+            d = defer.maybeDeferred(config.socks_endpoint, reactor, requested)
         else:
             cd = TorConfig.from_protocol(proto)
             sim.pump()
             config = cd.result
             d = config.create_socks_endpoint(reactor, requested)
+            if twice:
+                # the application asks for the same port again later (it is there by now, whatever it took the first time)
+                d.addErrback(lambda f: None)
+                sim.pump()
+                d = config.create_socks_endpoint(reactor, requested)
         d.addBoth(fired.append)
         sim.pump()
     except Exception:
@@ -115,7 +126,7 @@ def choose(existing, requested, path):
         err = True
     newport = reactor.given[0][0] if reactor.given else 0
     eff = lines if lines else ([existing["default"]] if existing.get("default") else [])
-    v = dict(part="a", path=path, lookupfails=bool(existing.get("lookupfails")), existing=[entry(l) for l in eff], requested=requested or "",
+    v = dict(part="a", path=path, twice=bool(twice), reqfirst=(requested.split()[0] if requested else ""), lookupfails=bool(existing.get("lookupfails")), existing=[entry(l) for l in eff], requested=requested or "",
              reqep=ep_record_from_text(requested) if requested else dict(kind="", host="", port=0, path=""),
              obs=dict(setconf=sets[0] if sets else [], nset=len(sets), ep=ep_record(ep) if ep is not None else dict(kind="none", host="", port=0, path=""),
                       newport=newport, newtext=str(newport), err=err))
